@@ -109,6 +109,12 @@ func c15Scenarios() []*dscenario {
 	sc4.device, sc4.target.Main = sc1.device, sc1.target.Main
 	sc4.prepNoop = true
 	l = append(l, sc4)
+	// the device answers the accepted route commands with an INFO: line
+	sc5 := baseScenario("IOS", "drc")
+	sc5.name = "IOS/routes/info-output"
+	sc5.device, sc5.target.Main = sc1.device, sc1.target.Main
+	sc5.infoFor = "ip route"
+	l = append(l, sc5)
 	return l
 }
 
